@@ -10,10 +10,24 @@ import (
 )
 
 // real result of html.escaped: the escaped text and stdlib html.UnescapeString of it
+// results of earlier calls are retained and re-read: a returned value must never change afterwards
+var c10Retained []struct{ got, copy string }
+
 func realHTMLEscaped(s string) string {
 	return guard(func() string {
 		o := safehtml.HTMLEscaped(s).String()
-		return "ok " + hxs(o) + " " + hxs(html.UnescapeString(o))
+		res := "ok " + hxs(o) + " " + hxs(html.UnescapeString(o))
+		for _, r := range c10Retained {
+			if r.got != r.copy {
+				c10Retained = nil
+				return "err an-earlier-result-changed-after-this-call"
+			}
+		}
+		c10Retained = append(c10Retained, struct{ got, copy string }{o, strings.Clone(o)})
+		if len(c10Retained) > 8 {
+			c10Retained = c10Retained[1:]
+		}
+		return res
 	})
 }
 
